@@ -128,3 +128,68 @@ func VF_C06_SplitJoin(nc, fan int) {
 	vf.Assert("helpers-finished", vf.Get("helpers.done") == 1)
 	vf.Reach("end")
 }
+
+// VF_C06_WaitGroup: when the caller's wait group returns to zero the helper has finished: every output
+// already holds all the values (no readers; the stream fits the capacity).  kind 0 Fork, 1 Split.
+func VF_C06_WaitGroup(nc, kind int) {
+	n, c := nc/4, nc%4
+	if n > c {
+		vf.Reach("end")
+		return
+	}
+	fan := 2
+	vf.EventBound((n+1)*(8+12*fan) + 8*fan + 12 + 10*(n+1)*fan)
+	in := col.Queue[int](nil).MakeWithCapacity(uint(c))
+	var wg sync.WaitGroup
+	var outs []col.QueueLike[int]
+	if kind == 0 {
+		outs = col.Queue[int](nil).Fork(&wg, in, uint(fan)).AsArray()
+	} else {
+		outs = col.Queue[int](nil).Split(&wg, in, uint(fan)).AsArray()
+	}
+	vf.Share(in)
+	vf.ShareWG(&wg)
+	for _, o := range outs {
+		vf.Share(o)
+	}
+	vf.Go(feeder(in, n))
+	vf.Go(func() {
+		wg.Wait()
+		total := 0
+		for _, o := range outs {
+			total += o.GetSize()
+		}
+		if kind == 0 {
+			vf.Assert("helper-finished-when-wait-returns", total == n*fan)
+		} else {
+			vf.Assert("helper-finished-when-wait-returns", total == n)
+		}
+		// every output can now be drained to its end: it holds its share in order and is closed
+		for k, o := range outs {
+			next := 1
+			if kind == 1 {
+				next = k + 1
+			}
+			for i := 0; i <= n; i++ {
+				v, ok := o.RemoveHead()
+				if !ok {
+					break
+				}
+				vf.Assert("output-values-in-order", v == next)
+				if kind == 0 {
+					next++
+				} else {
+					next += fan
+				}
+			}
+			if kind == 0 {
+				vf.Assert("output-complete", next == n+1)
+			} else {
+				vf.Assert("output-complete", next > n)
+			}
+		}
+	})
+	vf.TraceStart()
+	vf.WaitAll()
+	vf.Reach("end")
+}
